@@ -108,8 +108,9 @@ def write_replay(pid, body):
     return path
 
 
-def minimise(pid, viol):
-    """delta-debug a model/impl disagreement on a two-string case, preserving the disagreement"""
+def minimise(pid, viol, use_ref=False):
+    """delta-debug a model/impl disagreement on a two-string case, preserving the disagreement
+    (use_ref: the oracle is the harness's reference over the toolchain's orbits instead of Spec)"""
     case = viol.get("case", "")
     f = case.split("\t")
     if len(f) < 2 or f[0] not in FN_KINDS:
@@ -120,7 +121,10 @@ def minimise(pid, viol):
         line = "\t".join(fields)
         try:
             obs = harness_replay(line)
-            m = vlib.model_on([line])[0]
+            if use_ref:
+                m = {"S": obs.get("ref") or None}
+            else:
+                m = vlib.model_on([line])[0]
         except Exception:
             return None
         spec = m.get("S")
@@ -226,7 +230,16 @@ def check_property(pid, tier, seed):
         log("%s: proof obligations do not check; searching at thorough budget" % pid)
     stats = run_harness(pid, search_tier, seed, outdir)
     ncases, mism, refdis = compare_with_model(outdir)
+    # when the table facts that tie Spec's CaseFold (regenerated from the repository's tables) to the toolchain's
+    # folding orbits no longer check, Spec is no longer the authority on fold-equality: the reference over the
+    # toolchain's orbits is, and only a case on which the CODE departs from it is a failing input
+    tables_broken = (not proofs_ok) and any("FoldFacts" in str(x) for x in st["coq_failed"])
     for m in mism:
+        if tables_broken:
+            if m.get("go_ref") and (m["strcase"] != m["go_ref"] or m["bytcase"] != m["go_ref"]):
+                violations.append(dict(m, kind="implementation != reference over the toolchain's folding orbits "
+                                               "(the table facts of the model no longer check)"))
+            continue
         violations.append(dict(m, kind="implementation != Spec (extracted Coq model)"))
     for f in stats.get("findings") or []:
         if f["kind"] in ("relation", "hang", "alloc", "race", "kernel", "config", "mutated", "copy", "table"):
@@ -235,6 +248,13 @@ def check_property(pid, tier, seed):
         elif f["kind"] == "parity" and pid == "C07":
             violations.append({"kind": "parity", "fn": f.get("fn"), "case": f.get("case"),
                                "strcase": f.get("strcase"), "bytcase": f.get("bytcase")})
+    if tables_broken:
+        for f in sorted(stats.get("findings") or [], key=lambda f: len(str(f.get("case")))):
+            if f["kind"] == "ref-mismatch":
+                violations.append({"kind": "implementation != reference over the toolchain's folding orbits "
+                                           "(the table facts of the model no longer check)",
+                                   "fn": f.get("fn"), "case": f.get("case"), "strcase": f.get("strcase"),
+                                   "bytcase": f.get("bytcase"), "detail": "want " + str(f.get("want"))})
     for f in stats.get("findings") or []:
         if f["kind"] == "infra":
             raise Infra("harness: " + str(f.get("detail")))
@@ -262,6 +282,11 @@ def check_property(pid, tier, seed):
             known_hits.append(k)
             continue
         reported.append(v)
+    if reported and reported[0].get("kind", "").startswith("implementation != reference over the toolchain") and reported[0].get("case"):
+        reported[0] = minimise(pid, reported[0], use_ref=True)
+        if "minimised_from" in reported[0]:
+            reported[0]["go_ref"] = reported[0].pop("spec", None)
+            reported[0].pop("impl_model", None)
     if reported and reported[0].get("kind", "").startswith("implementation != Spec"):
         reported[0] = minimise(pid, reported[0])
         k = is_known(known, pid, reported[0])
